@@ -29,6 +29,45 @@ impl Transform {
     fn apply(&self, case: &EnumCase) -> EnumCase {
         let map = |c: u8| (c / 4) * 4 + self.suits[(c % 4) as usize];
         let flop = [map(case.flop[0]), map(case.flop[1]), map(case.flop[2])];
+        if let Some(texts) = &case.notation {
+            // relabel the suit letters of single-combo tokens; rank-pair tokens name all suits alike
+            let relabel = |text: &str| -> String {
+                text.split(',')
+                    .map(|tok| {
+                        let (body, weight) = match tok.split_once(':') {
+                            Some((b, w)) => (b, Some(w)),
+                            None => (tok, None),
+                        };
+                        let chars: Vec<char> = body.chars().collect();
+                        let is_combo = chars.len() == 4 && crate::conv::SUIT_CHARS.contains(&chars[1]) && crate::conv::SUIT_CHARS.contains(&chars[3]);
+                        let new_body: String = if is_combo {
+                            chars
+                                .iter()
+                                .enumerate()
+                                .map(|(i, c)| {
+                                    if i % 2 == 1 {
+                                        let si = crate::conv::SUIT_CHARS.iter().position(|x| x == c).unwrap();
+                                        crate::conv::SUIT_CHARS[self.suits[si] as usize]
+                                    } else {
+                                        *c
+                                    }
+                                })
+                                .collect()
+                        } else {
+                            body.to_string()
+                        };
+                        match weight {
+                            Some(w) => format!("{}:{}", new_body, w),
+                            None => new_body,
+                        }
+                    })
+                    .collect::<Vec<_>>()
+                    .join(",")
+            };
+            let texts: Vec<String> = self.order.iter().map(|old| relabel(&texts[*old])).collect();
+            let refs: Vec<&str> = texts.iter().map(|s| s.as_str()).collect();
+            return EnumCase::parsed(&case.label, flop, &refs);
+        }
         let ranges: Vec<Combos> = self
             .order
             .iter()
@@ -84,6 +123,50 @@ pub fn tally(case: &EnumCase) -> Result<RunStats, String> {
     Ok(RunStats { tallies, showdowns, flush_lookups: flush.get(), share_defects })
 }
 
+/// The same loop for two configurations whose iterators are advanced alternately on this thread
+/// (a position and its relabelled image evaluated side by side). Returns the second one's statistics.
+pub fn tally_lockstep(a: &EnumCase, b: &EnumCase) -> Result<RunStats, String> {
+    let (ra, ca) = a.build()?;
+    let (rb, cb) = b.build()?;
+    let n = cb.ranges.len();
+    let r = catch(|| {
+        let mut ia = drive::evaluator(&ca, &ra, None).into_iter();
+        let mut ib = drive::evaluator(&cb, &rb, None).into_iter();
+        let mut t: Tallies = vec![vec![0; n + 1]; n];
+        let (mut showdowns, mut share_defects) = (0u64, 0u64);
+        let (mut a_done, mut b_done) = (false, false);
+        while !a_done || !b_done {
+            if !a_done && ia.next().is_none() {
+                a_done = true;
+            }
+            if !b_done {
+                match ib.next() {
+                    None => b_done = true,
+                    Some(sd) => {
+                        showdowns += 1;
+                        let wl = sd.winner_len() as usize;
+                        let mut flagged = 0usize;
+                        for (i, p) in sd.players().iter().enumerate() {
+                            if p.is_winner() {
+                                flagged += 1;
+                                if wl >= 1 && wl <= n {
+                                    t[i][wl] += 1;
+                                }
+                            }
+                        }
+                        if flagged != wl || wl == 0 {
+                            share_defects += 1;
+                        }
+                    }
+                }
+            }
+        }
+        (t, showdowns, share_defects)
+    });
+    let (tallies, showdowns, share_defects) = r.map_err(|p| format!("panic: {}", p))?;
+    Ok(RunStats { tallies, showdowns, flush_lookups: 0, share_defects })
+}
+
 fn configs(tier: Tier, seed: u64) -> Vec<EnumCase> {
     let mut v = Vec::new();
     let mut rng = Rng::derive(seed, "c11-configs", 0);
@@ -120,6 +203,28 @@ fn configs(tier: Tier, seed: u64) -> Vec<EnumCase> {
         let flop = textured_flop(&mut rng, v.len());
         v.push(EnumCase::collect(&format!("cfg-{}", v.len()), flop, ranges));
     }
+    // a full table and beyond: 17..20 seats, one or two hands each, hole cards drawn from few ranks so that
+    // ties across many seats occur
+    for seats in [17usize, 20] {
+        let flop = textured_flop(&mut rng, seats);
+        let mut live: Vec<u8> = (0..52u8).filter(|c| !flop.contains(c)).collect();
+        rng.shuffle(&mut live);
+        let mut ranges: Vec<Combos> = (0..seats).map(|i| vec![(pid(live[2 * i], live[2 * i + 1]), 1.0f32)]).collect();
+        // two seats get a second hand made of still unused cards
+        let spare = &live[2 * seats..];
+        if spare.len() >= 4 {
+            ranges[0].push((pid(spare[0], spare[1]), 0.5));
+            ranges[seats - 1].push((pid(spare[2], spare[3]), 0.25));
+        }
+        v.push(EnumCase::collect(&format!("seats-{}", seats), flop, ranges));
+    }
+    // ranges written as notation, naming some combos in both card orders and on top of rank-pair tokens
+    let f = |t: &str| {
+        let c = crate::conv::parse_cards_text(t).unwrap();
+        [c[0], c[1], c[2]]
+    };
+    v.push(EnumCase::parsed("notation-both-orders-1", f("Qs8d2h"), &["KK+,AhAs:0.5", "QJs,Td9d,9dTd:0.25"]));
+    v.push(EnumCase::parsed("notation-both-orders-2", f("7c4d2h"), &["AsKs,KsAs:0.5,77", "7h7d,8c8s,8s8c:0.75,T9s"]));
     v
 }
 
@@ -129,8 +234,22 @@ fn transforms(n_players: usize, rng: &mut Rng, tier: Tier) -> Vec<Transform> {
         [p[0], p[1], p[2], p[3]]
     }).collect();
     let ident: Vec<usize> = (0..n_players).collect();
-    let n_perm: u64 = (1..=n_players as u64).product();
-    let orders: Vec<Vec<usize>> = (0..n_perm).map(|i| nth_permutation(&ident, i)).collect();
+    let orders: Vec<Vec<usize>> = if n_players <= 4 {
+        let n_perm: u64 = (1..=n_players as u64).product();
+        (0..n_perm).map(|i| nth_permutation(&ident, i)).collect()
+    } else {
+        // too many orders to list: the identity, the reversal, a rotation and seeded shuffles
+        let mut v = vec![ident.clone(), ident.iter().rev().cloned().collect()];
+        let mut rot = ident.clone();
+        rot.rotate_left(n_players / 2);
+        v.push(rot);
+        for _ in 0..9 {
+            let mut o = ident.clone();
+            rng.shuffle(&mut o);
+            v.push(o);
+        }
+        v
+    };
     let mut v = Vec::new();
     // all 24 relabellings with the players in place
     for s in suits.iter().skip(1) {
@@ -150,6 +269,8 @@ fn transforms(n_players: usize, rng: &mut Rng, tier: Tier) -> Vec<Transform> {
 struct Unit {
     cfg: usize,
     transform: Option<Transform>,
+    /// evaluate the transformed configuration side by side with the untransformed one
+    lockstep: bool,
 }
 
 pub fn run(ctx: &Ctx) -> Report {
@@ -158,9 +279,13 @@ pub fn run(ctx: &Ctx) -> Report {
     let mut rng = Rng::derive(ctx.seed, "c11-transforms", 0);
     let mut units: Vec<Unit> = Vec::new();
     for (i, c) in cfgs.iter().enumerate() {
-        units.push(Unit { cfg: i, transform: None });
-        for t in transforms(c.ranges.len(), &mut rng, ctx.tier) {
-            units.push(Unit { cfg: i, transform: Some(t) });
+        units.push(Unit { cfg: i, transform: None, lockstep: false });
+        let ts = transforms(c.players(), &mut rng, ctx.tier);
+        for (k, t) in ts.iter().enumerate() {
+            units.push(Unit { cfg: i, transform: Some(t.clone()), lockstep: false });
+            if k % 11 == 3 {
+                units.push(Unit { cfg: i, transform: Some(t.clone()), lockstep: true });
+            }
         }
     }
     let outcomes: Vec<Vec<(usize, Result<RunStats, String>)>> = par_run_map(
@@ -173,7 +298,11 @@ pub fn run(ctx: &Ctx) -> Report {
                 None => cfgs[unit.cfg].clone(),
                 Some(t) => t.apply(&cfgs[unit.cfg]),
             };
-            acc.push((u, tally(&case)));
+            if unit.lockstep {
+                acc.push((u, tally_lockstep(&cfgs[unit.cfg], &case)));
+            } else {
+                acc.push((u, tally(&case)));
+            }
         },
         |acc| acc,
     );
@@ -228,14 +357,17 @@ pub fn run(ctx: &Ctx) -> Report {
             }
             Some(t) => {
                 report.count("transformed_runs_compared", 1);
+                if unit.lockstep {
+                    report.count("of_which_evaluated_in_lockstep_with_the_original", 1);
+                }
                 report.note_distinct(mix2(case.hash(), crate::util::hash_str(&t.label())));
                 let expected: Tallies = t.order.iter().map(|old| b.tallies[*old].clone()).collect();
                 if stats.tallies != expected || stats.showdowns != b.showdowns {
                     report.violate(
-                        format!("{}:{}", case.signature(), t.label().replace(' ', "")),
+                        format!("{}:{}{}", case.signature(), t.label().replace(' ', ""), if unit.lockstep { ":lockstep" } else { "" }),
                         format!(
                             "{}: tallies change under {}: {:?} ({} showdowns) instead of {:?} ({} showdowns); {}",
-                            case.label, t.label(), stats.tallies, stats.showdowns, expected, b.showdowns, super::c02::cfg_short(&crate::refmodel::enumerate::Config { flop: case.flop, ranges: case.ranges.clone() })
+                            case.label, t.label(), stats.tallies, stats.showdowns, expected, b.showdowns, case.summary().to_string_compact()
                         ),
                         case_json(case, Some(t)),
                     );
@@ -276,8 +408,8 @@ pub fn replay(case: &Json) -> Report {
     };
     let ints = |key: &str| -> Option<Vec<usize>> { case.get(key)?.as_arr().map(|a| a.iter().filter_map(|x| x.as_i128()).map(|x| x as usize).collect()) };
     let t = match (ints("suits"), ints("order")) {
-        (Some(s), Some(o)) if s.len() == 4 && o.len() == c.ranges.len() => Transform { suits: [s[0] as u8, s[1] as u8, s[2] as u8, s[3] as u8], order: o },
-        _ => Transform { suits: [1, 0, 3, 2], order: (0..c.ranges.len()).rev().collect() },
+        (Some(s), Some(o)) if s.len() == 4 && o.len() == c.players() => Transform { suits: [s[0] as u8, s[1] as u8, s[2] as u8, s[3] as u8], order: o },
+        _ => Transform { suits: [1, 0, 3, 2], order: (0..c.players()).rev().collect() },
     };
     report.evaluations = 2;
     match (tally(&c), tally(&t.apply(&c))) {
